@@ -1447,3 +1447,21 @@ package main
 
 //@ func (*ClientTransportMgr).createClientTransport
 //@   holds c
+//@ immutable TCPBackend.localAddr
+//@ immutable TCPBackend.backendAddr
+//@ confined TCPBackend.conn: (*Proxy).receiveAndProcessMessage
+//@ immutable TCPBackend.connectionEstablished
+//@ immutable UDPBackend.backendAddr
+//@ confined UDPBackend.udpConn: (*Proxy).receiveAndProcessMessage
+//@ immutable TCPClientTransport.addr
+//@ immutable TCPClientTransport.localAddress
+//@ immutable TCPClientTransport.reconnectable
+//@ confined TCPClientTransport.conn: (*Proxy).receiveAndProcessMessage
+//@ immutable TCPClientTransport.expire
+//@ immutable TCPClientTransport.connectionEstablished
+//@ confined UDPClientTransport.conn: (*Proxy).receiveAndProcessMessage
+//@ immutable UDPClientTransport.localAddr
+//@ immutable UDPClientTransport.remoteAddr
+//@ confined FailOverClientTransport.primary: (*Proxy).receiveAndProcessMessage
+//@ immutable FailOverClientTransport.secondary
+//@ confined TCPServerTransport.exit: (*TCPServerTransport).receiveMessage
